@@ -628,6 +628,34 @@ def templates(op, spox):
     t("if", (("B0",), ("F6",), ("F6",)), ("F6",),
       lambda a, p: list(op.if_(a[0], then_branch=lambda: [a[1]], else_branch=lambda: [a[2]])))
 
+    # inference that yields no type (simulated by overriding infer_output_types of spox's own node classes): the
+    # backend / the attribute still delivers a value
+    class _AbsNoInfer(op._Abs):
+        def infer_output_types(self):
+            return {}
+
+    class _ConstNoInfer(op._Constant):
+        def infer_output_types(self):
+            return {}
+
+    def abs_untyped(a, p):
+        with warnings.catch_warnings():
+            warnings.simplefilter("ignore")
+            return [_AbsNoInfer(op._Abs.Attributes(), op._Abs.Inputs(X=a[0])).outputs.Y]
+
+    def const_untyped(a, p):
+        from spox._attributes import AttrTensor
+
+        with warnings.catch_warnings():
+            warnings.simplefilter("ignore")
+            attrs = op._Constant.Attributes(
+                value=AttrTensor(np.array([1.0, 2.0], np.float32), "value"), value_float=None, value_floats=None,
+                value_int=None, value_ints=None, value_string=None, value_strings=None)
+            return [_ConstNoInfer(attrs).outputs.output]
+
+    t("abs_untyped", (("F6", "F3"),), ("UNT",), abs_untyped)
+    t("const_untyped", (), ("UNT",), const_untyped)
+
     def inline1(a, p):
         return list(spox.inline(inline_model_1(op, spox))(a[0]).values())
 
